@@ -21,6 +21,23 @@ def R(mod, name, cfg="rc"):
 
 
 PROPS = {
+    "C13": dict(
+        rules=[R("iters", "rule_iter_copy"), R("iters", "rule_iter_err"), R("iters", "rule_iter_lazy")],
+        clause="Copies own copied inner iterators (R-ITER-COPY); iterator outputs that may carry an error are never "
+               "dropped, including by std consumers that discard items (R-ITER-ERR); adaptor constructors pull nothing "
+               "from their source (R-ITER-LAZY). Not decided: the sequences adaptors produce (cursor arithmetic), pull "
+               "order inside next().",
+        technique="type walk over ADT facts + MIR def-use (handle fields, output evidence) + call-graph reachability",
+    ),
+    "C04": dict(
+        rules=[R("vm", "rule_frames"), R("vm", "rule_catch_restore"), R("iters", "rule_iter_err")],
+        clause="Every nested interpreter entry sets the execution barrier and pops its frame when the nested run fails "
+               "(R-FRAMES); resuming at a catch handler restores the sequence/string builder stacks (R-CATCH-RESTORE); "
+               "no iterator output that may carry an error is dropped on its way up through adaptors and consumers "
+               "(R-ITER-ERR). Not decided: finally on every path, handler scoping across break/continue/return "
+               "(emitted control flow), variable state after a catch.",
+        technique="MIR path rules (sibling protocol at nested entries, must-pass-through) + linear-value evidence rule",
+    ),
     "C06": dict(
         rules=[R("borrow", "rule_borrow")],
         clause="Panic families visible in code shape: a RefCell guard of a shared container held across re-entrant or "
@@ -89,12 +106,10 @@ NOT_APPLICABLE = {
     "C01": "rules for its structural clauses (encoder/decoder layout agreement, number tower) are not built yet",
     "C02": "argument binding and capture semantics are functions of run-time register contents and of the emitted "
            "bytecode; no clause is visible in the shape of the Rust code (DESIGN.md section 5)",
-    "C04": "rules for its structural clauses (iterator error outputs never dropped) are not built yet",
     "C09": "every clause constrains numeric cursor values computed from the input's characters; no structural "
            "necessary condition exists (DESIGN.md section 5)",
     "C10": "rules not built yet",
     "C11": "rules not built yet",
-    "C13": "rules not built yet",
     "C14": "rules not built yet",
     "C15": "rules not built yet",
     "C16": "rules not built yet",
